@@ -1800,6 +1800,13 @@ func RunFrame(frame *py.Frame) (res py.Object, err error) {
 	//         save_exc_state(tstate, f);
 	// }
 
+	if store := frame.Context.Store(); store != nil {
+		if err := store.EnterCall(); err != nil {
+			return nil, err
+		}
+		defer store.LeaveCall()
+	}
+
 	if int(frame.Lasti) >= len(frame.Code.Code) {
 		return nil, py.ExceptionNewf(py.SystemError, "vm: instruction out of range - code most likely finished already")
 	}
